@@ -170,6 +170,14 @@ pub fn check_whitespace(out: &str, p: &WsParams) -> Vec<WsIssue> {
             continue;
         }
         let has_break = gap.contains('\n') || gap.contains('\r');
+        // a line comment runs to the end of its line: blanks at its end are the line's trailing blanks
+        // (the formatter trims them; comments inside verbatim regions are exempt)
+        if gi > 0 && !prev_verbatim && toks[gi - 1].kind == refscan::RK::LineComment {
+            let t = toks[gi - 1].text(out);
+            if t.ends_with(' ') || t.ends_with('\t') {
+                issues.push(WsIssue { rule: "trailing-blanks", at: toks[gi - 1].end, next_tok: gi, detail: format!("line comment ends in blanks: {:?}", t.chars().rev().take(12).collect::<Vec<_>>().into_iter().rev().collect::<String>()) });
+            }
+        }
         let mut push = |rule: &'static str, detail: String| issues.push(WsIssue { rule, at: gs, next_tok: gi, detail });
         if !has_break {
             if gi == n {
